@@ -369,13 +369,20 @@ impl Harness for C16 {
         for n in 2..=24usize {
             jobs.push(Job::new(format!("cv-plain-n{}", n), json!({"kind": "cv", "n": n, "shuffle": false})));
         }
-        for n in 2..=(if t { 7 } else { 5 }) {
+        for n in 2..=(if t { 6 } else { 5 }) {
             jobs.push(Job::new(format!("cv-shuffle-all-n{}", n), json!({"kind": "cv", "n": n, "shuffle": true})));
         }
-        let (dev_hi, dev_b) = if t { (32, 3) } else { (16, 2) };
+        let (dev_hi, dev_b) = if t { (24, 2) } else { (16, 2) };
         for n in (nmax_all + 1)..=dev_hi {
             jobs.push(Job::new(format!("kfold-shuffle-dev{}-n{}", dev_b, n), json!({"kind": "kfold", "n": n, "shuffle": true, "dev": true})).with_dev_bound(dev_b));
             jobs.push(Job::new(format!("split-shuffle-dev{}-n{}", dev_b, n), json!({"kind": "split", "n": n, "shuffle": true, "dev": true})).with_dev_bound(dev_b));
+        }
+        if t {
+            // three non-identity steps on the smaller sizes
+            for n in (nmax_all + 1)..=13 {
+                jobs.push(Job::new(format!("kfold-shuffle-dev3-n{}", n), json!({"kind": "kfold", "n": n, "shuffle": true, "dev": true})).with_dev_bound(3));
+                jobs.push(Job::new(format!("split-shuffle-dev3-n{}", n), json!({"kind": "split", "n": n, "shuffle": true, "dev": true})).with_dev_bound(3));
+            }
         }
         for n in 6..=(if t { 16 } else { 12 }) {
             jobs.push(Job::new(format!("cv-shuffle-dev2-n{}", n), json!({"kind": "cv", "n": n, "shuffle": true, "dev": true})).with_dev_bound(2));
@@ -388,8 +395,8 @@ impl Harness for C16 {
             bounds: json!({
                 "kfold_unshuffled": "every 2<=k<=n<=64; plus n in {255,256,257,300,513} with k in {2,3,7,64,127..129,200,255..258,300,511..513,n}",
                 "split_unshuffled": format!("every 1<=n<=64 x {} test sizes with floor_f32(n*ts)>=1", TEST_SIZES.len()),
-                "shuffled_all_permutations": format!("every Fisher-Yates answer sequence (all n! permutations) for n<={} (kfold: every k; split: every test size), cv n<={}", nmax_all, if t { 7 } else { 5 }),
-                "shuffled_deviation_bounded": format!("n<={}: every schedule with at most {} non-identity Fisher-Yates steps", dev_hi, dev_b),
+                "shuffled_all_permutations": format!("every Fisher-Yates answer sequence (all n! permutations) for n<={} (kfold: every k; split: every test size), cv n<={}", nmax_all, if t { 6 } else { 5 }),
+                "shuffled_deviation_bounded": format!("n<={}: every schedule with at most {} non-identity Fisher-Yates steps{}", dev_hi, dev_b, if t { "; n<=13: at most 3" } else { "" }),
                 "cross_validation": "spy estimator, every 2<=k<=n<=24 unshuffled",
             }),
         }
